@@ -69,7 +69,7 @@ def handle : Handler := fun op args =>
     let c ← parseCurve? c; let P ← parsePt? P
     if ¬ containsPoint c P then some "err NoSuchPointError" else
     some (showRes showPt (neg c P))
-  | "ec_mul", [ct, P, k] => do
+  | "ec_mul", [ct, P, k] | "ec_mulr", [ct, P, k] => do   -- `k * P` (Point.__rmul__) and `P * k` (Point.__mul__)
     let c ← parseCurve? ct
     let P ← parsePt? P
     -- `self.Point(*P)` happens before either backend is entered
@@ -98,7 +98,7 @@ def handle : Handler := fun op args =>
     | .ok l, .ok r => some s!"ok {showPt l} {showPt r}"
     | .error e, _ => some ("err " ++ e.tag)
     | _, .error e => some ("err " ++ e.tag)
-  | "ec_genmul", [c, k] => do
+  | "ec_genmul", [c, k] | "ec_rgenmul", [c, k] => do    -- `G * k` (Generator.__mul__) and `k * G` (Generator.__rmul__)
     some (showRes showPt (mulG (← parseCurve? c) 0 (← parseInt? k)))
   | "ec_invmodc", [_, a, m] => do
     some (showRes toString (inverseMod (← parseInt? a) (← parseInt? m)))
